@@ -22,7 +22,10 @@ Blame ==
   @@ "he.msg"     :> {"C01"}
   @@ "he.pos"     :> {"C01"}
   @@ "ha.msg"     :> {"C11"}
-  @@ "ha.timeout" :> {"C11"}
+  @@ "ha.timeout" :> {"C11"} @@ "ha.timeout.stream" :> {"C13", "C11"}
+  @@ "adv.vt.streamtmo" :> {"C13", "C11"} @@ "adv.pending.streamtmo" :> {"C13", "C11"}
+  @@ "blk.timer.alive" :> {"C10", "C15"} @@ "exit.timer.alive.aftertimeout" :> {"C10", "C15", "C11"}
+  @@ "hb.phase.timer.closed" :> {"C10", "C05", "C03"}
   @@ "ha.dead"    :> {"C11"}
   @@ "blk.loop.handling" :> {"C11", "C02"}
   @@ "eff.ctx"    :> {"C15"}
